@@ -3,6 +3,7 @@ package main
 import (
 	"encoding/json"
 	"fmt"
+	"math"
 
 	stackage "github.com/JesseCoretta/go-stackage"
 )
@@ -54,6 +55,11 @@ func (c listCfg) build() *listInst {
 		s = newStackKind(c.Kind)
 	}
 	m := &listModel{capk: c.Cap, neg: c.Neg, fwd: c.Fwd}
+	if c.Cap == math.MaxInt {
+		// the limit is stored as k+1, which does not exist for k = MaxInt: the constructor treats the
+		// request as "no capacity" (Cap() == -1). Either way the stack must never count as full.
+		m.capk = 0
+	}
 	if c.FIFO {
 		s.SetFIFO(true)
 		m.fifo = true
@@ -257,7 +263,8 @@ func c01Machine(c *Ctx, cfg listCfg) *Machine[*listInst] {
 			}
 			return out
 		},
-		Key: func(in *listInst) string { return stackKey(in.s) },
+		Observe: func(in *listInst) { observeAll(in.s) },
+		Key:     func(in *listInst) string { return stackKey(in.s) },
 	}
 }
 
@@ -304,6 +311,10 @@ func c01Configs(c *Ctx) []listCfg {
 			}
 		}
 	}
+	// capacities at the edge of int (the stored limit is k+1): the stack must simply never fill up
+	for _, cp := range []int{math.MaxInt, math.MaxInt - 1, 1 << 32} {
+		out = append(out, listCfg{"LIST", false, cp, false, false, 2, false, false, false}, listCfg{"OR", true, cp, true, true, 2, false, true, false})
+	}
 	return out
 }
 
@@ -314,7 +325,7 @@ func init() {
 		for _, cfg := range append(c01Configs(&Ctx{Tier: "quick"}), c01Configs(&Ctx{Tier: "thorough"})...) {
 			m := c01Machine(c, cfg)
 			if m.Name == hc.Machine {
-				replayHistory(c, m, hc.History)
+				replayHistory(c, m, hc.History, hc.Observed)
 				return
 			}
 		}
